@@ -1006,7 +1006,11 @@ func genKeySeq(g *h.Gen) {
 		g.Emit("keyseq %s esc 1 1b -", name)
 		g.Emit("keyseq %s del 1 7f -", name)
 		g.Emit("keyseq %s del 0 7f -", name)
-		np := g.N(40, len(tb)*len(tb))
+		npT := len(tb) * len(tb)
+		if npT > 12000 {
+			npT = 12000 // all pairs would be ~8M cases over the database: sampled (the pair law itself is the theorem concat_decodes)
+		}
+		np := g.N(40, npT)
 		for i := 0; i < np && len(tb) > 0; i++ {
 			a, b := h.Pick(g.R, tb), h.Pick(g.R, tb)
 			g.Emit("keyseq %s pair 1 %s %s", name, h.Hex([]byte(a)), h.Hex([]byte(b)))
